@@ -1184,7 +1184,16 @@ inline void register_db2()
       for (int l = 0; l < d.getLineNumber(); l++) { fp.I("lines:count" + std::to_string(l), d.getLineSampleCount(l)); fp.VI("lines:adds" + std::to_string(l), d._lineAdds[l]); }
       db_getters(d, fp); })
     .probe([](DbLine& d, Fp& fp) { db_probe(d, fp); })
-    .invariants([](DbLine& d) { std::string s = db_invariants(d); if (!s.empty()) return s; if (!d.isConsistent()) return std::string("lines-vs-samples"); return std::string(""); })
+    .invariants([](DbLine& d) {
+      std::string s = db_invariants(d); if (!s.empty()) return s;
+      // checked here with bounds (DbLine::isConsistent indexes a table with the addresses read from the file)
+      long nech = d.getSampleNumber(), tot = 0;
+      std::vector<char> seen((size_t)std::max(0L, nech), 0);
+      for (auto& line : d._lineAdds)
+        for (int a : line) { tot++; if (a < 0 || a >= nech || seen[(size_t)a]) return std::string("lines-vs-samples"); seen[(size_t)a] = 1; }
+      if (tot != nech) return std::string("lines-vs-samples");
+      if (!d.isConsistent()) return std::string("lines-vs-samples");
+      return std::string(""); })
     .nontrivial([](const std::vector<int>& x) { return x[0] > 0; })
     .corpus({{1, 0, 0}})
     .done();
